@@ -55,7 +55,9 @@ def alphabets(tier):
         'ret': [0.0, 0.3, PI / 2, PI, 2.0, 2 * PI] + ([] if q else [-0.7, 4.5]),
         'ang': [0.0, 0.4, -1.2, PI / 2] + ([] if q else [PI, -PI / 2, 2.9, 1e-3]),
         'dia': [0.0, 0.2, 1.0] + ([] if q else [0.5, 0.999]),
-        'charge': [1, 2, 6, -2] + ([] if q else [0, 3, 0.5]),
+        'charge': [1, 2, 6, -2, 0.5, 1.5, -0.5, 3] + ([] if q else [0, 2.5, -1.5]),
+        # azimuth on the other common convention, [0, 2 pi): values beyond pi matter for non-integer charge (branch of exp(i theta)**charge)
+        'ang2pi': [0.0, 0.4, 2 * PI - 1.2, PI / 2, PI, 3 * PI / 2, 5.5],
         'rot': [0.0, 0.5] + ([] if q else [-1.3]),
         'shapes': [[3], [2, 3], [2, 1, 2]] + ([] if q else [[1], [4, 1]]),
     }
@@ -143,6 +145,13 @@ def check_mueller_of_unitary(R, J, sig, what):
         return
     R.expect_close(M @ np.swapaxes(M, -1, -2), np.broadcast_to(np.eye(4), M.shape), 64 * TOLU, sig, f'M M^T != I for unitary {what}')
     R.expect_close(M[..., 0, 0], np.ones(M.shape[:-2]), 32 * TOLU, sig, f'M00 != 1 for unitary {what}')
+    check_mueller_value(R, J, M, sig, what)
+
+
+def check_mueller_value(R, J, M, sig, what):
+    """M against the Mueller matrix defined by S(J E) = M S(E), element by element of a batch."""
+    want = np.array([mueller_ref(x) for x in np.asarray(J).reshape(-1, 2, 2)]).reshape(np.asarray(J).shape[:-2] + (4, 4))
+    R.expect_close(M, want, 64 * TOLU * max(1.0, fro(np.asarray(J).reshape(-1, 2, 2)[0])) ** 2, sig, f'jones_to_mueller({what}) vs Stokes definition S(JE) = M S(E)')
 
 
 def tag_ret(d):
@@ -219,6 +228,8 @@ def run_element(case, seed, R):
         if a == 0:
             R.expect_close(J @ J, J, 16 * TOLU, name + ':idempotent', f'P^2 != P, theta={th}')
             M = valid(R, R.call(pol.jones_to_mueller, J), (4, 4), 'jones_to_mueller:value', 'M(polariser)', kind='f')
+            if M is not None:
+                check_mueller_value(R, J, M, name + ':mueller', f'{name}(alpha={a}, theta={th})')
             for phi in case['phis']:
                 want = math.cos(th - phi) ** 2
                 for deg in (False, True):
@@ -234,6 +245,10 @@ def run_element(case, seed, R):
                     R.expect_close((M @ S)[0], want, 32 * TOLU, name + ':malus:mueller', f'Mueller Malus theta={th} phi={phi}')
         if a == 1:
             R.expect_close(J, I2, 16 * TOLU, name + ':value', 'alpha=1 is not the identity')
+        if a != 0:
+            Mg = valid(R, R.call(pol.jones_to_mueller, J), (4, 4), 'jones_to_mueller:value', 'M(diattenuator)', kind='f')
+            if Mg is not None:
+                check_mueller_value(R, J, Mg, name + ':mueller', f'{name}(alpha={a}, theta={th})')
     if kind == 'polarizer' and J is not None:
         Jl = valid(R, R.call(pol.linear_diattenuator, 0, theta=th), (2, 2), 'linear_diattenuator:value', 'linear_diattenuator(0)')
         if Jl is not None:
@@ -254,8 +269,9 @@ def theta_values(shape, off, seed, pool):
 def run_vortex(case, seed, R):
     charge, d, rotv, shape, off = case['charge'], case['ret'], case['rotate'], tuple(case['shape']), case['off']
     pool = case['pool']
-    if off < 0:      # the seeded generic representative
-        th = np.random.default_rng([int(seed), 20, abs(off), len(shape)]).uniform(-PI, PI, size=shape)
+    if off < 0:      # the seeded generic representative, on the case's azimuth convention
+        lo, hi = (0.0, 2 * PI) if case.get('conv') == '0-2pi' else (-PI, PI)
+        th = np.random.default_rng([int(seed), 20, abs(off), len(shape)]).uniform(lo, hi, size=shape)
     else:
         th = theta_values(shape, off, seed, pool)
     base = f'vector_vortex_retarder:{tag_ret(d)}'
@@ -306,12 +322,21 @@ def matrix_pool(seed, tier):
         ('nilpotent', np.array([[0, 1], [0, 0]], dtype=complex), False),
         ('generic-1', g(4), False),
         ('generic-2', 0.5 * (1 + 1j) * g(5), False),
+        # structurally special matrices (exact zeros / exactly real): where a fast path would branch
+        ('diag(1,i)', np.diag([1, 1j]), True),                                                   # exactly diagonal, phases differ
+        ('diag-complex', np.diag([0.8 * np.exp(0.3j), 0.5 * np.exp(-1.1j)]), False),
+        ('antidiag-complex', np.array([[0, 1j], [np.exp(0.4j), 0]]), True),                       # exactly anti-diagonal
+        ('real-generic', g(8).real.astype(complex), False),                                      # exactly real, non-symmetric
     ]
     if tier != 'quick':
         q2, _ = np.linalg.qr(g(6))
-        pool += [('zero', np.zeros((2, 2), dtype=complex), False), ('diag(1,i)', np.diag([1, 1j]), True),
+        pool += [('zero', np.zeros((2, 2), dtype=complex), False), ('diag-real', np.diag([1.0 + 0j, 0.5]), False),
                  ('generic-3', g(7), False), ('unitary-generic-2', q2, True)]
     return pool
+
+
+def diagonal_members(pool):
+    return [k for k, (_, J, _) in enumerate(pool) if J[0, 1] == 0 and J[1, 0] == 0]
 
 
 def run_pair(case, seed, R):
@@ -345,8 +370,18 @@ def run_mueller_batch(case, seed, R):
     pool = matrix_pool(seed, case['tier'])
     shape, off, step = tuple(case['shape']), case['off'], case['step']
     nb = int(np.prod(shape))
-    A = np.array([pool[(off + k) % len(pool)][1] for k in range(nb)]).reshape(shape + (2, 2))
-    B = np.array([pool[(off + step * k + 3) % len(pool)][1] for k in range(nb)]).reshape(shape + (2, 2))
+    kind = case.get('kind', 'mixed')
+    if kind == 'mixed':
+        ia = [(off + k) % len(pool) for k in range(nb)]
+        ib = [(off + step * k + 3) % len(pool) for k in range(nb)]
+    else:           # every element exactly diagonal ('diagonal'), or all but the last one ('diagonal+1')
+        dm = diagonal_members(pool)
+        ia = [dm[(off + k) % len(dm)] for k in range(nb)]
+        ib = [dm[(off + step * k + 1) % len(dm)] for k in range(nb)]
+        if kind == 'diagonal+1':
+            ia[-1] = ib[-1] = 6      # generic-1
+    A = np.array([pool[k][1] for k in ia]).reshape(shape + (2, 2))
+    B = np.array([pool[k][1] for k in ib]).reshape(shape + (2, 2))
     scale = max(1.0, max(fro(p[1]) for p in pool)) ** 4
     sig = f'jones_to_mueller:batch:{len(shape)}d'
     Ms = {}
@@ -830,16 +865,21 @@ def plan(tier, seed):
             for rv in A['rot']:
                 for shp in vshapes:
                     nb = int(np.prod(shp)) if shp else 1
-                    offs = range(len(A['ang'])) if nb == 1 else (0, 1)
-                    for off in offs:
-                        vortex.append({'charge': ch, 'ret': d, 'rotate': rv, 'shape': shp, 'off': off, 'pool': A['ang']})
-                    vortex.append({'charge': ch, 'ret': d, 'rotate': rv, 'shape': shp, 'off': -1, 'pool': A['ang']})
+                    for conv, apool in (('atan2', A['ang']), ('0-2pi', A['ang2pi'])):
+                        offs = range(len(apool)) if nb == 1 else ((0, 1) if conv == 'atan2' else (0, 1, 3))
+                        for off in offs:
+                            vortex.append({'charge': ch, 'ret': d, 'rotate': rv, 'shape': shp, 'off': off, 'pool': apool, 'conv': conv})
+                        vortex.append({'charge': ch, 'ret': d, 'rotate': rv, 'shape': shp, 'off': -1, 'pool': apool, 'conv': conv})
         for shp in vshapes:      # default retardance (half wave) and rotate
-            vortex.append({'charge': ch, 'ret': PI, 'rotate': 0, 'shape': shp, 'off': 0, 'pool': A['ang'], 'defaults': True})
-    npool = 8 if quick else 12
+            vortex.append({'charge': ch, 'ret': PI, 'rotate': 0, 'shape': shp, 'off': 0, 'pool': A['ang'], 'conv': 'atan2', 'defaults': True})
+            vortex.append({'charge': ch, 'ret': PI, 'rotate': 0, 'shape': shp, 'off': 2, 'pool': A['ang2pi'], 'conv': '0-2pi', 'defaults': True})
+    npool = len(matrix_pool(seed, tier))
+    ndiag = len(diagonal_members(matrix_pool(seed, tier)))
     pairs = [{'i': i, 'j': j, 'tier': tier} for i in range(npool) for j in range(npool)]
     mshapes = [[1]] + [s for s in A['shapes'] if s != [1]] + ([[8]] if quick else [[12], [3, 4]])
-    mbatch = [{'shape': s, 'off': off, 'step': step, 'tier': tier} for s in mshapes for off in range(npool) for step in (1, 3)]
+    mbatch = [{'shape': s, 'off': off, 'step': step, 'tier': tier, 'kind': 'mixed'} for s in mshapes for off in range(npool) for step in (1, 3)]
+    mbatch += [{'shape': s, 'off': off, 'step': step, 'tier': tier, 'kind': kind} for kind in ('diagonal', 'diagonal+1') for s in mshapes
+               for off in range(ndiag) for step in (1, 2) if not (kind == 'diagonal+1' and int(np.prod(s)) == 1)]
     pauli = [{'shape': s, 'off': off, 'tier': tier} for s in [[]] + mshapes for off in range(npool)]
     pools = {'theta': A['ang'], 'retardance': A['ret'], 'alpha': A['dia']}
     ctors = []
@@ -867,14 +907,14 @@ def plan(tier, seed):
                   'linear_retarder / half_wave_plate / quarter_wave_plate (J^H J = I, reference R(-t) diag(1,e^id) R(t), det, E(t) = R_lib(-t) E(0) R_lib(t), Mueller orthogonal with M00 = 1), '
                   'linear_diattenuator / linear_polarizer (reference, rotation law, P^2 = P, Malus law against every input angle through Jones vectors in radians and degrees and through the Mueller matrix)'),
         ScopeUnit('vortex', vortex, run_vortex,
-                  f"vector_vortex_retarder over charge {A['charge']} x retardance x rotate {A['rot']} x theta grids of shape () and {A['shapes']} filled from the angle alphabet at every offset "
+                  f"vector_vortex_retarder over charge {A['charge']} x retardance x rotate {A['rot']} x theta grids of shape () and {A['shapes']} filled from the angle alphabet at every offset, on both azimuth conventions ((-pi,pi] as from arctan2, and [0,2pi): {A['ang2pi']}); charges include half-integers and negatives "
                   '(plus one seeded generic grid): unitary at every point, equal to Mawet eq. 7 reference, Mueller orthogonal with M00 = 1, batched == element-by-element (fresh 0-d theta arrays); default-argument form too'),
         ScopeUnit('mueller_pairs', pairs, run_pair,
-                  f'ALL {npool * npool} ordered pairs (A, B) of a pool of {npool} complex 2x2 matrices (identity, seeded unitary, real rotator, singular polariser, seeded rank-one, nilpotent, seeded generic x2'
-                  + ('' if quick else ', zero, diag(1,i), generic, unitary') + '): M(AB) = M(A) M(B) through broadcast_kron and through np.kron; M(A) equals the Mueller matrix defined by S(JE) = M S(E); '
+                  f'ALL {npool * npool} ordered pairs (A, B) of a pool of {npool} complex 2x2 matrices (identity, seeded unitary, real rotator, singular polariser, seeded rank-one, nilpotent, seeded generic x2, exactly diagonal with unequal phases x2, exactly anti-diagonal complex, exactly real non-symmetric'
+                  + ('' if quick else ', zero, real diagonal, generic, unitary') + '): M(AB) = M(A) M(B) through broadcast_kron and through np.kron; M(A) equals the Mueller matrix defined by S(JE) = M S(E); '
                   'unitary => M M^T = I, M00 = 1; broadcast_kron == np.kron', reset=None),
         ScopeUnit('mueller_batch', mbatch, run_mueller_batch,
-                  f'batches of shapes {mshapes} cut from the pool at every offset and two strides: batched jones_to_mueller == one matrix at a time == reference; batched multiplicativity; broadcast_kron == np.kron per element'),
+                  f'batches of shapes {mshapes} cut from the pool at every offset and two strides, plus all-exactly-diagonal batches and all-diagonal-but-one batches: batched jones_to_mueller == one matrix at a time == reference; batched multiplicativity; broadcast_kron == np.kron per element'),
         ScopeUnit('pauli', pauli, run_pauli,
                   'pauli_spin_matrix (all four, with and without shape=) equal the documented basis; pauli_coefficients of sigma_k = e_k; sum_k c_k sigma_k reconstructs every pool matrix and every batch; c_k = tr(sigma_k J)/2'),
         ScopeUnit('batched_ctor', ctors, run_ctor,
